@@ -42,6 +42,28 @@ def jobs_for(tier):
     return jobs
 
 
+def apalache(module, inv):
+    """Run Apalache on spec/<module>.tla; returns (ok, seconds).  ok = invariant holds for unbounded integers."""
+    import shutil
+    import subprocess
+    import tempfile
+    import time
+    out = tempfile.mkdtemp(prefix='apa-', dir=config.workdir('tlc'))
+    t0 = time.time()
+    try:
+        proc = subprocess.run(['apalache-mc', 'check', '--init=Init', '--next=Next', '--inv=' + inv, '--length=1',
+                               '--out-dir=' + out, os.path.join(config.SPEC, module + '.tla')],
+                              cwd=config.SPEC, stdout=subprocess.PIPE, stderr=subprocess.STDOUT, timeout=900)
+        text = proc.stdout.decode('utf-8', 'replace')
+    finally:
+        shutil.rmtree(out, ignore_errors=True)
+    if 'EXITCODE: OK' in text:
+        return True, time.time() - t0
+    if 'The outcome is: Error' in text:
+        return False, time.time() - t0
+    raise runner.MachineryError('apalache failed on %s:\n%s' % (module, text[-1500:]))
+
+
 def run(tier, seed):
     jobs = jobs_for(tier)
     runner.log('EM: %d TLC model-checking runs of the specification' % len(jobs))
@@ -64,6 +86,21 @@ def run(tier, seed):
             if not res.violation or ('Invariant %s is violated' % expect) not in res.violation:
                 raise runner.MachineryError('sabotaged configuration %s did not violate %s: the invariant is vacuous' % (cfg, expect))
             checks.append('%s: violates %s as intended (non-vacuity)' % (cfg, expect))
+    # unbounded arithmetic lemmas (Apalache, linear integer arithmetic): Jaccard / Dice bounds for ALL sizes
+    from concurrent.futures import ThreadPoolExecutor
+    mods = sorted(os.path.basename(f)[:-4] for f in glob.glob(os.path.join(config.SPEC, 'MC_Bounds_*.tla')))
+    if tier == 'quick':
+        mods = mods[:3]
+    with ThreadPoolExecutor(max_workers=4) as pool:
+        outs = list(pool.map(lambda mname: apalache(mname, 'Lemma'), mods))
+        bad = apalache(mods[0], 'WrongLemma')
+    for mname, (ok, secs) in zip(mods, outs):
+        if not ok:
+            raise runner.MachineryError('Apalache: Bounds lemma fails for %s' % mname)
+        checks.append('%s (Apalache, unbounded sizes): JaccardLemma /\\ DiceLemma hold (%.0fs)' % (mname, secs))
+    if bad[0]:
+        raise runner.MachineryError('Apalache accepted the deliberately false WrongLemma')
+    checks.append('%s: WrongLemma refuted by Apalache as intended (non-vacuity)' % mods[0])
     return {'engine': 'EM', 'cases': len(jobs), 'traces': 0, 'states': states, 'transitions': trans,
             'fails': [], 'samples': [{'config': j[1], 'module': j[0], 'expects_violation_of': j[2]} for j in jobs[:2] + jobs[-2:]],
             'model_checks': checks, 'exhaustive': True,
